@@ -64,6 +64,7 @@ def run_seed(d, props, out, jobs_per_check, tier):
 def main():
     ap = argparse.ArgumentParser()
     ap.add_argument("--all", action="store_true")
+    ap.add_argument("--relevant", action="store_true", help="only the checks of properties that depend on a file the patch touches")
     ap.add_argument("--jobs", type=int, default=4)
     ap.add_argument("--out", default="/tmp/seedres")
     ap.add_argument("--tier", default="quick")
@@ -76,7 +77,19 @@ def main():
         futs = []
         for d in a.seeds:
             own = os.path.basename(d.rstrip("/")).split("-")[0]
-            futs.append(ex.submit(run_seed, d, claimed if a.all else [own], a.out, per, a.tier))
+            props = claimed if a.all else [own]
+            if a.relevant:
+                import re
+                sys.path.insert(0, os.path.join(VERIF, "harness"))
+                import fingerprint
+                touched = set(re.findall(r"^\+\+\+ b/(\S+)", open(os.path.join(d, "patch.diff")).read(), flags=re.M))
+                anchors = {}
+                for l in open(os.path.join(VERIF, "properties.jsonl")):
+                    pd = json.loads(l)
+                    anchors[pd["id"]] = set(pd.get("anchors", {}).get("files", []))
+                pipeline = any(f.startswith("src/") and not f.startswith("src/diagnostic/") and f not in ("src/plot_alignments.py", "src/compare_alignments.py") for f in touched)
+                props = [p for p in claimed if (anchors.get(p, set()) & touched) or (pipeline and p in fingerprint.E2E_PROPS)]
+            futs.append(ex.submit(run_seed, d, props, a.out, per, a.tier))
         for f in cf.as_completed(futs):
             sid, res = f.result()
             print(sid, {p: (v if isinstance(v, str) else (v["exit"], v.get("kind"), (v.get("what") or "")[:100])) for p, v in res.items()}, flush=True)
